@@ -56,6 +56,10 @@ func genC09(t *rapid.T) c09Case {
 	default:
 		c.MaxSize = rapid.IntRange(2000, maxHi).Draw(t, "maxsize")
 	}
+	if rapid.IntRange(0, 4).Draw(t, "pow2") == 0 {
+		// sizes that coincide with the sketch's table sizes (powers of two) are what people configure
+		c.MaxSize = 1 << uint(rapid.IntRange(6, 13).Draw(t, "log2size"))
+	}
 	if c.Workload == "hot" && c.MaxSize < 300 && verifkit.Avoid("C09-small-cache") {
 		// known finding: hot sets are not reliably retained by caches of fewer than ~300 entries
 		c.MaxSize = rapid.IntRange(300, 2000).Draw(t, "maxsizeSteered")
@@ -402,6 +406,7 @@ func execC09(c c09Case, x *verifkit.Ctx) *verifkit.Failure {
 	x.ClassIf(c.Pre > 0, "concurrent-pre-phase")
 	x.ClassIf(c.PreSecs > 0, "long-contended-pre-phase")
 	x.ClassIf(c.Mixed, "mixed-costs")
+	x.ClassIf(c.MaxSize&(c.MaxSize-1) == 0, "power-of-two-size")
 	if c.Workload == "hot" {
 		verifkit.Extra("min_hot_ratio_x1000", c09Min("hr", int64(res.hotRatio*1000)))
 		verifkit.Extra("min_hot_resident_x1000", c09Min("hres", int64(res.hotResident*1000)))
@@ -471,7 +476,7 @@ func c09Min(key string, v int64) int64 {
 func TestVerifC09(t *testing.T) {
 	verifkit.Run(t, verifkit.Spec[c09Case]{
 		ID: "C09", Gen: genC09, Exec: execC09, Nondet: true,
-		Rule: "C09: rapid draws the cache kind (plain, loading, hybrid), MaxSize 50..5000 (thorough ..100000), uniform or mixed costs, an optional concurrent pre-phase (8 goroutines x 200..10000 operations) and either a hot-set workload (hot set 5..50% of the cache, capped at half; 20..95% of the operations are cache-aside reads of hot keys, the rest insert keys never read again; trace of 40 x MaxSize operations from a drawn seed expanded by a fixed xorshift PRNG) or a Zipf workload (s in 0.70..1.20, universe 5..50 x MaxSize, compared with an LRU reference of the same capacity run on the same trace); non-trivial = hot workload with at least 20% one-off inserts (>= 8 x MaxSize of them), or any Zipf trace",
+		Rule: "C09: rapid draws the cache kind (plain, loading, hybrid), MaxSize 50..5000 (thorough ..100000; a fifth of the cases a power of two 64..8192), uniform or mixed costs, an optional concurrent pre-phase (8 goroutines x 200..10000 operations) and either a hot-set workload (hot set 5..50% of the cache, capped at half; 20..95% of the operations are cache-aside reads of hot keys, the rest insert keys never read again; trace of 40 x MaxSize operations from a drawn seed expanded by a fixed xorshift PRNG) or a Zipf workload (s in 0.70..1.20, universe 5..50 x MaxSize, compared with an LRU reference of the same capacity run on the same trace); non-trivial = hot workload with at least 20% one-off inserts (>= 8 x MaxSize of them), or any Zipf trace",
 		Assumptions: []string{
 			"statistical oracle with calibrated thresholds: hot-set hit ratio over the last 30% of the trace >= 0.90 and >= 90% of the hot keys resident at the end; Zipf hit ratio >= LRU - 0.08 (worst observed on the unchanged tree: 0.985 / 1.0 / -0.028)",
 			"reads reach the policy through the lossy striped buffer and the real maintenance goroutine (Wait every 512 operations), so results vary slightly between runs",
